@@ -8,7 +8,8 @@
     ShardBuilder.Add against the destination builder; shards ordered by priority; tombstoned repositories
     skipped; non-contiguous repository ids rejected).  Repositories without documents are lost by design
     (they have no entry in [view]). *)
-From ZV Require Import Lib.Base Model.MergeDocs Proofs.MergeDocsProofs Proofs.MergeDocsTotal Proofs.MergeDocsSearch.
+From ZV Require Import Lib.Base Model.MergeDocs Proofs.MergeDocsProofs Proofs.MergeDocsTotal Proofs.MergeDocsSearch
+  Proofs.MergeDocsWidth.
 From Coq Require Import Permutation Sorted.
 
 (** the merged shard shows exactly the documents of the inputs' live repositories, shard by shard in
@@ -168,6 +169,43 @@ Theorem C16_runner_accepts_only_successes :
 Proof. exact c16_ok_no_failure. Qed.
 Print Assumptions C16_runner_accepts_only_successes.
 
+(** ---- the code as written.  [merge] / [explode] above resolve every bit of a branch mask; addDocument walks the
+    64-bit mask with a bit counter `id` of W bits ([merge_w W] / [explode_w W], Model/MergeDocs.v): bits >= W resolve
+    to "".  With W >= 64 (the repaired code: uint64, [merge_impl] = [merge_w 64] is what the runner compares with the
+    implementation) the walk is exact on well-formed shards, for ANY number of branches setRepository accepts: every
+    theorem of this file about [merge] / [explode] is a theorem about [merge_impl] / [explode_impl]. *)
+Theorem C16_walk_width_sufficient :
+  forall (w : nat), (64 <= w)%nat ->
+    (forall shards, Forall wf_shard shards -> merge_w w shards = merge shards) /\
+    (forall sh, wf_shard sh -> explode_w w sh = explode sh).
+Proof. intros w Hw. split; intros; [apply merge_w_eq|apply explode_w_eq]; auto. Qed.
+Print Assumptions C16_walk_width_sufficient.
+
+Theorem C16_impl_total_preserves :
+  forall (shards : list shard),
+    shards <> [] -> Forall wf_shard shards -> Forall mergeable shards ->
+    exists b outs, merge_impl shards = Ok b /\ viewr b = flat_map viewr (sort_prio shards) /\
+                   Permutation (view b) (flat_map view shards) /\ wf_shard b /\ mergeable b /\
+                   explode_impl b = Ok outs /\ flat_map viewr outs = viewr b /\
+                   Forall (fun o => length (sh_repos o) = 1%nat) outs.
+Proof.
+  intros shards Hne Hwf Hmg. destruct (C16_merge_total_preserves shards Hne Hwf Hmg) as [b [Hb [_ [Hp [Hwb Hmb]]]]].
+  destruct (C16_explode_total b Hwb Hmb) as [outs Ho]. exists b, outs.
+  rewrite (merge_impl_eq _ Hwf), (explode_impl_eq _ Hwb).
+  split; [exact Hb|]. split; [apply C16_merge_preserves_repo; auto|]. split; [exact Hp|]. split; [exact Hwb|].
+  split; [exact Hmb|]. split; [exact Ho|]. apply C16_explode_preserves_repo; auto.
+Qed.
+Print Assumptions C16_impl_total_preserves.
+
+(** The 32-bit walk the code had before the repair (`id := uint32(1)`) is NOT sufficient: a well-formed, mergeable
+    shard with one repository of 33 branches and one document on the 33rd is refused by merge and by explode with
+    "no branch found for " (Err 2) -- replayed on the implementation: props/C16/NOTES.md, /repo fix commit. *)
+Theorem C16_walk32_refuted :
+  exists sh, wf_shard sh /\ mergeable sh /\ merge_w 32 [sh] = Err 2 /\ explode_w 32 sh = Err 2 /\
+             (exists b, merge_w 64 [sh] = Ok b /\ viewr b = viewr sh).
+Proof. exists ex33_shard. exact walk32_refuted. Qed.
+Print Assumptions C16_walk32_refuted.
+
 (** ---- "searches return the same matches", for every document-local engine.
     [engine q sh] = the result of query q over shard sh; the hypothesis says that it is the concatenation over
     the visible documents (those of live repositories, in document order) of a per-document function of the
@@ -302,4 +340,19 @@ Example ex_search :
             flat_map (engine 102%N) [ex_s1; ex_s2] = [(1, 2)]%N /\
             doc_count 1 b = 2%nat /\ doc_count 2 b = 1%nat /\ doc_count 3 b = 0%nat /\
             map fst (viewr b) = [ex_r2; ex_r1; ex_r1].
+Proof. eexists. vm_compute. repeat split. Qed.
+(** 64 branches, documents on the branches 33..64: exact with the 64-bit walk *)
+Example ex_64_branches :
+  let r := {| sr_id := 5; sr_prio := 1; sr_tomb := false; sr_branches := map N.of_nat (seq 1 64); sr_subs := [0] |}%N in
+  let s := {| sh_repos := [r]; sh_langs := [41]%N;
+              sh_docs := [ex_doc 1 0 (repeat false 63 ++ [true]) 0 0; ex_doc 2 0 (repeat false 32 ++ true :: repeat false 31) 0 0] |} in
+  c16_pre s = true /\ (exists b, merge_impl [s] = Ok b /\ map (fun e => dd_branches (snd e)) (view b) = [[64]; [33]]%N) /\
+  merge_w 32 [s] = Err 2.
+Proof. split; [vm_compute; reflexivity|]. split; [eexists; vm_compute; split; reflexivity|vm_compute; reflexivity]. Qed.
+(** a section stored without symbol metadata (id 0) is copied with the empty metadata (id 1 = empty_meta) *)
+Example ex_nil_meta :
+  let s := {| sh_repos := [ex_r2]; sh_langs := [41]%N;
+              sh_docs := [{| sd_name := 1; sd_content := 2; sd_repo := 0; sd_mask := [true]; sd_lang := 0; sd_sub := 0;
+                             sd_syms := [(0, 3, 0); (4, 6, 9)]%N; sd_cat := 1%N |}] |} in
+  exists b, merge_impl [s] = Ok b /\ map sd_syms (sh_docs b) = [[(0, 3, 1); (4, 6, 9)]]%N /\ view b = view s.
 Proof. eexists. vm_compute. repeat split. Qed.
